@@ -253,6 +253,7 @@ type Engine struct {
 	forkHist   map[string]int
 	summarise  map[string]bool
 	merging    bool
+	concrete   map[string][]CexInput
 }
 
 type Access2 struct{ A, B Access }
